@@ -37,9 +37,9 @@ func edgeLit(pr, succ *ssa.BasicBlock) (Lit, bool) {
 	}
 	v, pos := stripNot(iff.Cond, true)
 	if pr.Succs[0] == succ {
-		return Lit{v, pos}, true
+		return Lit{V: v, Pos: pos}, true
 	}
-	return Lit{v, !pos}, true
+	return Lit{V: v, Pos: !pos}, true
 }
 
 func (p *Prog) pathMasks(fn *ssa.Function, preds []Pred) *pathInfo {
@@ -60,7 +60,7 @@ func (p *Prog) pathMasks(fn *ssa.Function, preds []Pred) *pathInfo {
 				v, _ := stripNot(iff.Cond, true)
 				var bits uint32
 				for i, q := range preds {
-					if q(Lit{v, true}) || q(Lit{v, false}) {
+					if q(Lit{V: v, Pos: true}) || q(Lit{V: v, Pos: false}) {
 						bits |= 1 << uint(i)
 					}
 				}
@@ -365,6 +365,22 @@ func (p *Prog) lift(q Pred, depth int) Pred {
 				good, _ = p.allPathsEdge(rp.pred, rp.ret.Block(), []Pred{inner}, all(1))
 			} else {
 				good, _ = p.allPaths(rp.ret, []Pred{inner}, all(1))
+			}
+			if !good {
+				// the helper returns the result of another call: its own
+				// success implies that call's success
+				v := rp.ret.Results[idx]
+				if _, isConst := v.(*ssa.Const); !isConst && rp.pred == nil {
+					var implied Lit
+					if kind == errNil {
+						implied = Lit{V: v, Pos: true, Nil: true}
+					} else {
+						implied = Lit{V: v, Pos: kind == boolTrue}
+					}
+					if inner(implied) {
+						continue
+					}
+				}
 			}
 			if !good {
 				// a return of a dynamic error that is tested non-nil on all paths is a failure return
